@@ -779,3 +779,71 @@ func countOnPath(path []pathStep, p func(ssa.Instruction) bool) int {
 	}
 	return n
 }
+
+// fieldPathOf matches the address (FieldAddr chain) or loaded value of field path "A.B" rooted at a value
+// satisfying root. For value-typed roots ssa.Field is accepted too.
+func fieldPathOf(root vpred, path string) vpred {
+	parts := strings.Split(path, ".")
+	return func(v ssa.Value) bool {
+		if u, ok := v.(*ssa.UnOp); ok && u.Op == token.MUL {
+			v = u.X
+		}
+		for i := len(parts) - 1; i >= 0; i-- {
+			var x ssa.Value
+			var idx int
+			switch t := v.(type) {
+			case *ssa.FieldAddr:
+				x, idx = t.X, t.Field
+			case *ssa.Field:
+				x, idx = t.X, t.Field
+			default:
+				return false
+			}
+			var st *types.Struct
+			tt := x.Type()
+			if p, ok := tt.Underlying().(*types.Pointer); ok {
+				tt = p.Elem()
+			}
+			st, _ = tt.Underlying().(*types.Struct)
+			if st == nil || idx >= st.NumFields() || st.Field(idx).Name() != parts[i] {
+				// embedded promotion: the selector may go through an embedded struct field implicitly
+				return false
+			}
+			v = x
+		}
+		// strip loads of the root pointer
+		for {
+			if root(v) {
+				return true
+			}
+			if u, ok := v.(*ssa.UnOp); ok && u.Op == token.MUL {
+				v = u.X
+				continue
+			}
+			return false
+		}
+	}
+}
+
+// loadOf lifts an address predicate to the loaded value.
+func loadOf(p vpred) vpred {
+	return func(v ssa.Value) bool {
+		if p(v) {
+			return true
+		}
+		u, ok := v.(*ssa.UnOp)
+		return ok && u.Op == token.MUL && p(u.X)
+	}
+}
+
+func isValue(x ssa.Value) vpred { return func(v ssa.Value) bool { return v == x } }
+
+// paramOf returns the parameter of fn named name (nil if absent).
+func paramOf(fn *ssa.Function, name string) ssa.Value {
+	for _, p := range fn.Params {
+		if p.Name() == name {
+			return p
+		}
+	}
+	return nil
+}
